@@ -13,8 +13,9 @@ CONTRACT_DIR = os.path.join(SPEC, "contract")
 class Job:
     """One driver invocation: a batch of executions against one build configuration."""
 
-    def __init__(self, cfg, driver, module, execs, label):
+    def __init__(self, cfg, driver, module, execs, label, also=()):
         self.cfg, self.driver, self.module, self.execs, self.label = cfg, driver, module, execs, label
+        self.also = tuple(also)     # further trace specifications the same recorded trace is validated against
         self.trace = None
         self.verdict = None
         self.events = 0
@@ -71,6 +72,13 @@ def run_job(job, wdir, idx):
     if job.verdict.get("lines") != job.events:
         raise InfraError("trace not consumed completely: %s of %s lines (%s)"
                          % (job.verdict.get("lines"), job.events, job.trace))
+    for mod in job.also:
+        v2, s2 = tlc.validate_trace(CONTRACT_DIR, mod, job.trace)
+        if v2.get("lines") != job.events:
+            raise InfraError("trace not consumed completely by %s: %s of %s lines (%s)"
+                             % (mod, v2.get("lines"), job.events, job.trace))
+        job.verdict["viol"] = list(job.verdict["viol"]) + list(v2["viol"])
+        job.stats["tlc_states"] = job.stats.get("tlc_states", 0) + s2.get("tlc_states", 0)
     return job
 
 
@@ -146,7 +154,7 @@ def attribute(jobs, prop, also=("ANY",)):
 def confirm(rec, prop, wdir):
     """Re-execute the single failing execution and validate again; True if the same rule fails."""
     job = rec["job"]
-    j2 = Job(job.cfg, job.driver, job.module, [(rec["hdr"], rec["cmds"])], "confirm")
+    j2 = Job(job.cfg, job.driver, job.module, [(rec["hdr"], rec["cmds"])], "confirm", job.also)
     try:
         run_job(j2, wdir, 900 + (abs(hash(json.dumps(rec["v"], sort_keys=True))) % 90))
     except InfraError as e:
@@ -158,7 +166,7 @@ def confirm(rec, prop, wdir):
 def write_replay(rec, prop):
     os.makedirs(os.path.join(REPLAYS, prop), exist_ok=True)
     job = rec["job"]
-    body = {"property": prop, "cfg": job.cfg, "driver": job.driver, "module": job.module,
+    body = {"property": prop, "cfg": job.cfg, "driver": job.driver, "module": job.module, "also": list(job.also),
             "rule": rec["v"]["rule"], "guard_property": rec["v"]["prop"], "info": rec["v"]["info"],
             "line": rec["v"]["line"], "header": rec["hdr"], "cmds": rec["cmds"],
             "script": exec_text(rec["hdr"], rec["cmds"])}
@@ -173,7 +181,7 @@ def replay(path):
     body = json.load(open(path))
     prop = body["property"]
     wdir = _workdir("replay")
-    job = Job(body["cfg"], body["driver"], body["module"], [(body["header"], body["cmds"])], "replay")
+    job = Job(body["cfg"], body["driver"], body["module"], [(body["header"], body["cmds"])], "replay", body.get("also", ()))
     run_job(job, wdir, 0)
     hits = [v for v in job.verdict["viol"] if v["rule"] == body["rule"]]
     for v in job.verdict["viol"]:
